@@ -57,7 +57,7 @@ def gen_value(rng, allow_semicolon=True):
 
 DEFAULT_PROFILE = {
     "put": 30, "post": 5, "delete": 10, "mk": 4, "delcoll": 2, "proppatch": 6, "restart": 3,
-    "lock": 2, "get": 4, "multiget": 4, "reupload": 4, "uidquery": 1, "drain": 1,
+    "lock": 2, "get": 4, "multiget": 4, "reupload": 4, "uidquery": 1, "drain": 1, "expandquery": 1,
     "fault": 0.0,      # probability that a PUT/DELETE runs with an injected ENOSPC
     "cond": 0.35,      # probability that a PUT/DELETE carries a conditional header
     "invalid": 0.12,   # probability that a PUT body is from an invalid class
@@ -76,7 +76,7 @@ PROFILES = {
     "C08": {"proppatch": 14, "delete": 14, "reupload": 8, "restart": 5, "retype": 0.2},
     "C09": {"drain": 3, "proppatch": 12, "lock": 6, "reupload": 8, "delete": 9, "untyped": 0.45, "len": 36, "put": 40,
             "get": 8, "manynames": True},
-    "C14": {"invalid": 0.3, "reupload": 16, "put": 40, "grammar": 0.65, "ctparams": 0.6, "otherfiles": 0.15},
+    "C14": {"invalid": 0.3, "reupload": 16, "put": 40, "grammar": 0.65, "ctparams": 0.6, "otherfiles": 0.15, "expandquery": 8},
     "C15": {"proppatch": 45, "restart": 8, "mk": 6, "delcoll": 3, "put": 12, "propheavy": True, "propsingle": 0.4, "lock": 5},
     "C16": {"mk": 8, "delcoll": 5, "post": 10},
     "C17": {"multiget": 22, "delete": 12, "external": 0.15, "otherfiles": 0.15},
@@ -233,7 +233,7 @@ def run_random_session(seed, prof, frontend="wsgi", prefix="/", backend="tree", 
                     s.mk(c, k, how=how, props=props)
         stored_opaque = {}
         ops = [(k, prof.get(k, 0)) for k in ("put", "post", "delete", "mk", "delcoll", "proppatch",
-                                             "restart", "lock", "get", "multiget", "reupload", "uidquery", "drain")]
+                                             "restart", "lock", "get", "multiget", "reupload", "uidquery", "drain", "expandquery")]
         for _ in range(prof["len"]):
             op = weighted(rng, ops)
             c = rng.choice(slots) if rng.random() < 0.25 else rng.choice(slots[:1] + slots[-1:])
@@ -331,6 +331,9 @@ def run_random_session(seed, prof, frontend="wsgi", prefix="/", backend="tree", 
                     cur = curprops.get(NEUTRAL.get(p, p))
                     if cur and rng.random() < 0.2:
                         return s.V.value(cur)
+                    if p == "displayname" and rng.random() < 0.15:
+                        # the name the collection shows by default (the last segment of its path)
+                        return s.slots[c].rsplit("/", 1)[-1]
                     if p in ("calcolor", "abcolor"):
                         # (some clients send the colour without the leading '#')
                         return rng.choice(COLORS) if rng.random() < 0.85 else rng.choice(["FF2968", "00ff00aa"])
@@ -367,6 +370,8 @@ def run_random_session(seed, prof, frontend="wsgi", prefix="/", backend="tree", 
                     s.lock(c, False)
                 elif backend in ("tree", "treecfg"):
                     s.lock(c, True)
+            elif op == "expandquery":
+                s.expandquery(c)
             elif op == "drain":
                 # the collection is emptied, member by member
                 for n in sorted(live):
@@ -391,7 +396,7 @@ def run_random_session(seed, prof, frontend="wsgi", prefix="/", backend="tree", 
                 items = []
                 for _k in range(rng.randint(1, 6)):
                     cls = rng.choice(["live", "live", "live", "missing", "dup", "enc", "abs", "othercoll",
-                                      "othercoll", "outside", "coll", "malformed"])
+                                      "othercoll", "outside", "coll", "malformed", "badutf"])
                     others = [(oc, sorted(a["members"])) for oc, a in
                               (s.events[-1]["audit"]["colls"].items() if s.events else [])
                               if oc != c and a["members"]]
